@@ -109,10 +109,10 @@ spec fn item_rc<T>(seed: u64, v: T, lg_k: u8) -> u32 { ref_row_col(murmur128(see
 proof fn lemma_ref_row_col(h0: u64, h1: u64, lg_k: u8)
   requires 4 <= lg_k <= 26
   ensures
-    ref_row_col(h0, h1, lg_k) != EMPTY,
-    (ref_row_col(h0, h1, lg_k) >> 6) < pow2(lg_k as nat),
-    (ref_row_col(h0, h1, lg_k) & 63) == (if clz64(h1) > 63 { 63 } else { clz64(h1) }),
-    (ref_row_col(h0, h1, lg_k) >> 6) == (if lg_k == 26 && (h0 as int) % 0x400_0000 == 0x3ff_ffff && clz64(h1) >= 63 { 0x3ff_fffe } else { (h0 as int) % (pow2(lg_k as nat) as int) }),
+    /*@C16.cpc_row_col.not_sentinel*/ ref_row_col(h0, h1, lg_k) != EMPTY,
+    /*@C16.cpc_row_col.row_range*/ (ref_row_col(h0, h1, lg_k) >> 6) < pow2(lg_k as nat),
+    /*@C16.cpc_row_col.col*/ (ref_row_col(h0, h1, lg_k) & 63) == (if clz64(h1) > 63 { 63 } else { clz64(h1) }),
+    /*@C16.cpc_row_col.row*/ (ref_row_col(h0, h1, lg_k) >> 6) == (if lg_k == 26 && (h0 as int) % 0x400_0000 == 0x3ff_ffff && clz64(h1) >= 63 { 0x3ff_fffe } else { (h0 as int) % (pow2(lg_k as nat) as int) }),
 {
     lemma_shl64(lg_k); lemma_k_bound(lg_k); lemma2_to64();
     vstd::std_specs::bits::axiom_u64_leading_zeros(h1);
@@ -368,6 +368,7 @@ proof {
 let m = ( k - 1 ) as u64 ;
 let l = self . lg_k ;
 assert ( ( h1 & m ) < k ) by ( bit_vector ) requires k == ( 1u64 << l ) , m == ( k - 1 ) as u64 , 4 <= l <= 26 ;
+assert ( h1 & m == h1 % k ) by ( bit_vector ) requires k == ( 1u64 << l ) , m == ( k - 1 ) as u64 , 4 <= l <= 26 ;
 }
 let row = ( h1 & ( k - 1 ) ) as u32 ;
 let mut row_col = ( row << 6 ) | ( col as u32 ) ;
@@ -412,6 +413,7 @@ const EMPIRICAL_SIZE_MAX_LGK : u8 = 19 ;
 const EMPIRICAL_MAX_SIZE_FACTOR : f64 = 0.6 ;
 let EMPIRICAL_MAX_SIZE_BYTES : [ usize ;
 16 ] = [ 24 , 36 , 56 , 100 , 180 , 344 , 660 , 1292 , 2540 , 5020 , 9968 , 19836 , 39532 , 78880 , 157516 , 314656 , ] ;
+assert ( /*@C18.cpc.max_bytes_value*/ EMPIRICAL_MAX_SIZE_FACTOR == 0.6f64 ) ;
 proof {
 lemma_max_bytes ( lg_k ) ;
 lemma_shl_i32 ( lg_k ) ;
